@@ -28,6 +28,7 @@ META["text"] += ' R5 includes CVR.from_vote (the one-contest record the RAIRE re
 META["text"] += ' R2 requires the union to be a new dict (an in-place update would write into a dict other records may share).'
 META["text"] += ' R3 also: the flag stores are executed for every repeated record (not inside a branch of the tally-pool reconciliation).'
 META["text"] += ' R1 refutes grouping by itertools.groupby over the unsorted list (adjacent records only).'
+META["text"] += ' R5 also: the row loop skips no row.'
 
 SPEC_TP = '''
 def spec(old, new):
